@@ -76,6 +76,7 @@ def case(spec):
     chain = chain_all
     d = os.path.join(work, "d")
     partial_removed = 0
+    blocks_ahead = 0
     if spec.get("n", 0) % 3 == 1 and len(chain_all) >= 3:
         # range handling must not depend on which blk file holds a height: out-of-order multi-file layout
         from .. import layouts
@@ -95,9 +96,20 @@ def case(spec):
             if h not in wanted:
                 os.unlink(os.path.join(d, kw["names"][pl_index[i].file]))
                 partial_removed += 1
+    elif spec.get("n", 0) % 3 == 0 and spec.get("n", 0) % 2 == 0:
+        # a node that is still syncing headers-first: a block downloaded ahead of time sits on disk two or three heights above the tip,
+        # the heights in between have no usable record. The tip stays T: "heights s..min(e,T)".
+        from ..datadir import Placement, VALID_TRANSACTIONS, HAVE_DATA
+        arng = random.Random("C02ahead|%s" % spec["n"])
+        pl = harness.simple_layout(chain_all)
+        ahead = gen.ChainBuilder(arng, coin, start_height=chain_all[-1][0] + arng.randint(2, 3))
+        ahead.prev = gen.rbytes(arng, 32)
+        pl.append(Placement(ahead.add_block(n_tx=1), ahead.height - 1, file=1, status=VALID_TRANSACTIONS | HAVE_DATA))
+        datadir.write_datadir(d, COINS[coin], pl)
+        blocks_ahead = 1
     else:
         datadir.write_datadir(d, COINS[coin], harness.simple_layout(chain_all))
-    v, shapes, counters = [], [], {"files_of_out_of_range_blocks_removed": partial_removed}
+    v, shapes, counters = [], [], {"files_of_out_of_range_blocks_removed": partial_removed, "blocks_downloaded_ahead_of_the_tip": blocks_ahead}
     S = 0 if s is None else s
     tip = chain[-1][0]
     skind = "none" if s is None else ("0" if s == chain[0][0] else ("tip" if s == tip else ("above" if s > tip else "mid")))
